@@ -320,6 +320,65 @@ func runEvents(c *Ctx, r *Reporter) {
 				prmIdx = indexOfElementLoad(tc.Call.Args[0])
 			}
 			r.Check(argIdx != nil && prmIdx != nil && argIdx == prmIdx && ascendingInduction(argIdx), fd.QName()+"#slot-i-to-param-i", p.Rel(instrPos(conv)), "payload slot i is bound to declared parameter i", "HandleEvent must bind args[i] to eh.Params[i] with one shared index: with separate counters a `_` or skipped parameter shifts every later value to the wrong name")
+			// the list whose element i is bound is the handler's declared parameter list: Params of the parser's
+			// EventHandlerStmt, or a field of the evaluator's own that only ever receives that list as a whole
+			declared, whyList := false, "the parameter whose type is used cannot be traced to a list"
+			if tc, ok := conv.Call.Args[0].(*ssa.Call); ok && len(tc.Call.Args) == 1 {
+				if u, ok := tc.Call.Args[0].(*ssa.UnOp); ok {
+					if ia, ok := u.X.(*ssa.IndexAddr); ok {
+						if ld, ok := ia.X.(*ssa.UnOp); ok {
+							if fa, ok := ld.X.(*ssa.FieldAddr); ok {
+								owner, fname := fieldAddrInfo(fa)
+								switch {
+								case owner != nil && owner.Obj().Name() == "EventHandlerStmt" && fname == "Params":
+									declared = true
+								case owner != nil && owner.Obj().Pkg() == pkg.Types:
+									// every store to this field is a load of EventHandlerStmt.Params
+									declared, whyList = true, ""
+									stores := 0
+									for _, fn := range ssaFuncsOf(p, pkg) {
+										for _, b2 := range fn.Blocks {
+											for _, i2 := range b2.Instrs {
+												st, ok := i2.(*ssa.Store)
+												if !ok {
+													continue
+												}
+												fa2, ok := st.Addr.(*ssa.FieldAddr)
+												if !ok {
+													continue
+												}
+												if o2, f2 := fieldAddrInfo(fa2); o2 != owner || f2 != fname {
+													continue
+												}
+												stores++
+												whole := false
+												if l2, ok := st.Val.(*ssa.UnOp); ok {
+													if fa3, ok := l2.X.(*ssa.FieldAddr); ok {
+														if o3, f3 := fieldAddrInfo(fa3); o3 != nil && o3.Obj().Name() == "EventHandlerStmt" && f3 == "Params" {
+															whole = true
+														}
+													}
+												}
+												if !whole {
+													declared = false
+													whyList = "the list " + owner.Obj().Name() + "." + fname + " is built from the declared parameters by something other than taking them whole (a filtered or re-ordered copy)"
+												}
+											}
+										}
+									}
+									if stores == 0 {
+										declared, whyList = false, "the list "+owner.Obj().Name()+"."+fname+" is never assigned the declared parameters"
+									}
+								default:
+									whyList = "the list is neither EventHandlerStmt.Params nor a field of the evaluator"
+								}
+							}
+						}
+					}
+				}
+			}
+			r.Check(declared, fd.QName()+"#declared-parameter-list", p.Rel(instrPos(conv)), "the parameters bound to the payload are the handler's declared list, position by position",
+				"HandleEvent binds payload slot i to element i of a list that is not the handler's declared parameter list as a whole ("+whyList+"): with `_` parameters dropped from it, `on down _:num y:num` binds y to the x coordinate")
 			// set(param.Name, arg) with the converted value
 			set := FindFunc(pkg, "(*scope).set")
 			okSet := false
